@@ -651,6 +651,8 @@ def check_C10(rep, fl):
     check_closed_first(rep, fl)
     check_worker_exit(rep, fl)
     check_cleaner(rep, fl)
+    # "removed ones are gone once wait() returns": the Delete marker is ordered behind the sets and cannot be lost
+    check_remove_pair(rep, fl)
 
 
 # ----------------------------------------------------------------------------------------
